@@ -17,7 +17,7 @@ use crate::util::{Args, TraceOut, catch};
 
 // ------------------------------------------------------------------ C15: scheduled streams
 
-const ERR_KINDS: [io::ErrorKind; 10] = [
+const ERR_KINDS: [io::ErrorKind; 17] = [
     io::ErrorKind::Other,
     io::ErrorKind::UnexpectedEof,
     io::ErrorKind::TimedOut,
@@ -28,6 +28,13 @@ const ERR_KINDS: [io::ErrorKind; 10] = [
     io::ErrorKind::ConnectionAborted,
     io::ErrorKind::NotFound,
     io::ErrorKind::PermissionDenied,
+    io::ErrorKind::Unsupported,
+    io::ErrorKind::ConnectionReset,
+    io::ErrorKind::NotConnected,
+    io::ErrorKind::InvalidInput,
+    io::ErrorKind::OutOfMemory,
+    io::ErrorKind::AlreadyExists,
+    io::ErrorKind::ConnectionRefused,
 ];
 
 /// A byte source that follows a schedule: at most `frag` bytes per call, `Interrupted` at the calls in `intr`,
@@ -406,26 +413,45 @@ pub struct PortState {
     pub t0: Instant,
     pub read_latency: Option<Duration>, // the reply arrives this late
     pub fail_writes: usize,             // the next N write calls fail hard
+    pub io_fail_n: usize,               // how many consecutive calls fail from io_fail_at on (reads, writes and flushes count)
+    pub write_cap: Option<usize>,       // the port accepts at most this many bytes per write call (a legal short write)
+    pub io_kind: usize,                 // which kind of hard error an injected read / write / flush fault reports
 }
 
 impl PortState {
     pub fn new(line: Line) -> Self {
-        PortState { line, timeout: None, fail: "none".into(), fail_kind: 0, dev_log: vec![], rx: VecDeque::new(), tx: vec![], io_log: vec![], io_calls: 0, io_fail_at: None, t0: Instant::now(), read_latency: None, fail_writes: 0 }
+        PortState { line, timeout: None, fail: "none".into(), fail_kind: 0, dev_log: vec![], rx: VecDeque::new(), tx: vec![], io_log: vec![], io_calls: 0, io_fail_at: None, t0: Instant::now(), read_latency: None, fail_writes: 0, io_fail_n: 1, write_cap: None, io_kind: 0 }
     }
     fn now(&self) -> u64 {
         self.t0.elapsed().as_micros() as u64
     }
+    /// Takes the next I/O call index and says whether that call is scheduled to fail.
+    fn next_io(&mut self) -> (usize, bool) {
+        let i = self.io_calls;
+        self.io_calls += 1;
+        (i, matches!(self.io_fail_at, Some(a) if i >= a && i < a + self.io_fail_n.max(1)))
+    }
+    fn io_error(&mut self, what: &str) -> io::Error {
+        self.io_kind += 1;
+        io::Error::new(ERR_KINDS[(self.io_kind - 1) % ERR_KINDS.len()], what)
+    }
 }
 
 /// The device errors injected by the instrumented port, of several kinds (a retry on one kind must not hide a refusal).
+pub const DEV_ERROR_KINDS: usize = 22;
+
 fn dev_error(kind: usize, what: &str) -> serial_core::Error {
-    match kind % 6 {
+    use io::ErrorKind as K;
+    // both non-I/O kinds and every stable I/O kind: which kind a port refuses with must not matter
+    const IO: [K; 20] = [
+        K::Interrupted, K::TimedOut, K::WouldBlock, K::Other, K::Unsupported, K::NotFound, K::PermissionDenied, K::ConnectionRefused,
+        K::ConnectionReset, K::ConnectionAborted, K::NotConnected, K::AddrInUse, K::AddrNotAvailable, K::BrokenPipe, K::AlreadyExists,
+        K::InvalidInput, K::InvalidData, K::WriteZero, K::UnexpectedEof, K::OutOfMemory,
+    ];
+    match kind % DEV_ERROR_KINDS {
         0 => serial_core::Error::new(serial_core::ErrorKind::NoDevice, what),
         1 => serial_core::Error::new(serial_core::ErrorKind::InvalidInput, what),
-        2 => serial_core::Error::new(serial_core::ErrorKind::Io(io::ErrorKind::Interrupted), what),
-        3 => serial_core::Error::new(serial_core::ErrorKind::Io(io::ErrorKind::TimedOut), what),
-        4 => serial_core::Error::new(serial_core::ErrorKind::Io(io::ErrorKind::WouldBlock), what),
-        _ => serial_core::Error::new(serial_core::ErrorKind::Io(io::ErrorKind::Other), what),
+        k => serial_core::Error::new(serial_core::ErrorKind::Io(IO[k - 2]), what),
     }
 }
 
@@ -490,11 +516,10 @@ impl SerialPortSettings for ISettings {
 
 impl Read for IPort {
     fn read(&mut self, buf: &mut [u8]) -> io::Result<usize> {
-        let (t0, i, fail, latency) = {
+        let (t0, fail, latency) = {
             let mut s = self.st.borrow_mut();
-            let i = s.io_calls;
-            s.io_calls += 1;
-            (s.now(), i, s.io_fail_at == Some(i), s.read_latency.take())
+            let (_, fail) = s.next_io();
+            (s.now(), fail, s.read_latency.take())
         };
         if let Some(d) = latency {
             std::thread::sleep(d);
@@ -503,7 +528,7 @@ impl Read for IPort {
         if fail {
             let t1 = s.now();
             s.io_log.push(json!({"e": "pr", "req": buf.len(), "ret": -2, "t0": t0, "t1": t1}));
-            return Err(io::Error::new(io::ErrorKind::Other, "injected read failure"));
+            return Err(s.io_error("injected read failure"));
         }
         if s.rx.is_empty() {
             let t1 = s.now();
@@ -523,21 +548,23 @@ impl Read for IPort {
 impl Write for IPort {
     fn write(&mut self, buf: &[u8]) -> io::Result<usize> {
         let complete_line;
+        let n;
         {
             let mut s = self.st.borrow_mut();
             let t0 = s.now();
-            let i = s.io_calls;
-            s.io_calls += 1;
-            if s.io_fail_at == Some(i) || s.fail_writes > 0 {
+            let (_, fail) = s.next_io();
+            if fail || s.fail_writes > 0 {
                 s.fail_writes = s.fail_writes.saturating_sub(1);
                 let t1 = s.now();
                 s.io_log.push(json!({"e": "pw", "data": j::bytes(buf), "ret": -2, "t0": t0, "t1": t1}));
-                return Err(io::Error::new(io::ErrorKind::Other, "injected write failure"));
+                return Err(s.io_error("injected write failure"));
             }
-            s.tx.extend_from_slice(buf);
-            complete_line = buf.last() == Some(&b'\n');
+            // a port may take fewer bytes than offered (never zero of a non-empty buffer)
+            n = s.write_cap.map(|c| c.max(1).min(buf.len())).unwrap_or(buf.len());
+            s.tx.extend_from_slice(&buf[..n]);
+            complete_line = n > 0 && buf[n - 1] == b'\n';
             let t1 = s.now();
-            s.io_log.push(json!({"e": "pw", "data": j::bytes(buf), "ret": buf.len(), "t0": t0, "t1": t1}));
+            s.io_log.push(json!({"e": "pw", "data": j::bytes(buf), "ret": n, "t0": t0, "t1": t1}));
         }
         if complete_line {
             let p = self.pump.clone();
@@ -545,9 +572,17 @@ impl Write for IPort {
                 f();
             }
         }
-        Ok(buf.len())
+        Ok(n)
     }
+    /// The library never had to flush; a flush is still an I/O call that the fault schedule can refuse.
     fn flush(&mut self) -> io::Result<()> {
+        let mut s = self.st.borrow_mut();
+        let t0 = s.now();
+        let (_, fail) = s.next_io();
+        s.io_log.push(json!({"e": "pf", "ret": if fail { -2 } else { 0 }, "t0": t0, "t1": t0}));
+        if fail {
+            return Err(s.io_error("injected flush failure"));
+        }
         Ok(())
     }
 }
@@ -630,6 +665,15 @@ pub fn record_c20(a: &Args) -> usize {
         BaudRate::Baud115200,
         BaudRate::BaudOther(250000),
         BaudRate::BaudOther(1),
+        // "other" rates that equal the target, or are congruent to it modulo a narrower integer width
+        BaudRate::BaudOther(19200),
+        BaudRate::BaudOther(19199),
+        BaudRate::BaudOther(19200 + (1 << 8)),
+        BaudRate::BaudOther(19200 + (1 << 16)),
+        BaudRate::BaudOther(19200usize.wrapping_add(1usize.wrapping_shl(32))),
+        BaudRate::BaudOther(19200usize.wrapping_add(5usize.wrapping_shl(32))),
+        BaudRate::BaudOther(0),
+        BaudRate::BaudOther(usize::MAX),
     ];
     let bits = [CharSize::Bits5, CharSize::Bits6, CharSize::Bits7, CharSize::Bits8];
     let parities = [Parity::ParityNone, Parity::ParityOdd, Parity::ParityEven];
@@ -673,7 +717,7 @@ pub fn record_c20(a: &Args) -> usize {
                                     Duration::from_nanos(1),
                                 ][k % 10];
                                 let treq = format!("{}.{:09}", timeout.as_secs(), timeout.subsec_nanos());
-                                out.emit(json!({"e": "setup", "ctor": ctor, "prior": line_json(&prior), "timeout": treq, "fail": fail, "kind": (runs / 3) % 6}));
+                                out.emit(json!({"e": "setup", "ctor": ctor, "prior": line_json(&prior), "timeout": treq, "fail": fail, "kind": (runs / 3) % DEV_ERROR_KINDS}));
                                 let res = match *ctor {
                                     "configure_port" => {
                                         let mut port = port;
@@ -828,6 +872,11 @@ fn pm_result(r: &Result<Result<Option<Message<'static>>, String>, String>) -> Va
 
 /// One process_message call on a fresh bus over an instrumented port.
 fn run_pm(out: &mut TraceOut, m: &Message<'static>, tape: &[u8], io_fail_at: Option<usize>, timed: bool) {
+    run_pm_opts(out, m, tape, io_fail_at, 1, None, timed)
+}
+
+/// ... `fail_n` consecutive port calls refused from call `io_fail_at` on; a port that accepts at most `cap` bytes per write.
+fn run_pm_opts(out: &mut TraceOut, m: &Message<'static>, tape: &[u8], io_fail_at: Option<usize>, fail_n: usize, cap: Option<usize>, timed: bool) {
     let st = Rc::new(RefCell::new(PortState::new(target_line())));
     let port = IPort::new(st.clone());
     let mut bus = match SerialSignBus::try_new(port) {
@@ -838,6 +887,8 @@ fn run_pm(out: &mut TraceOut, m: &Message<'static>, tape: &[u8], io_fail_at: Opt
         let mut s = st.borrow_mut();
         s.rx = tape.iter().copied().collect();
         s.io_fail_at = io_fail_at;
+        s.io_fail_n = fail_n;
+        s.write_cap = cap;
         s.io_calls = 0;
         s.io_log.clear();
         s.tx.clear();
@@ -926,6 +977,29 @@ pub fn record_c16(a: &Args) -> usize {
             }
         }
     }
+    // a port that takes only a few bytes per write call (a legal short write: the frame must still go out whole), alone and
+    // together with a refusal of the k-th port call
+    let own3 = Address(3);
+    let reply = Frame::from(Message::ReportState(own3, State::PageLoaded)).to_bytes_with_newline();
+    let short_msgs = vec![Message::Hello(own3), Message::QueryState(own3), Message::Goodbye(own3), Message::DataChunksSent(ChunkCount(9)),
+                          Message::RequestOperation(own3, Operation::ShowLoadedPage), Message::ReportState(own3, State::Unconfigured),
+                          Message::SendData(Offset(0), Data::try_new(vec![0xC3; 16]).unwrap()), Message::SendData(Offset(16), Data::try_new(vec![0x11; 255]).unwrap())];
+    for (mi, m) in short_msgs.iter().enumerate() {
+        let wl = wire_len(m);
+        for cap in [1usize, 2, 7, 14, 15, 16, 32, 46, 47, 64, 512] {
+            if cap > wl + 1 || (!thorough && wl > 100 && cap < 32) {
+                continue;
+            }
+            out.balance();
+            run_pm_opts(&mut out, m, &reply, None, 1, Some(cap), false);
+            let calls = (wl + cap - 1) / cap + 2;
+            for f in 0..calls {
+                if thorough || f < 3 || f + 3 >= calls || (f + mi) % 7 == 0 {
+                    run_pm_opts(&mut out, m, &reply, Some(f), 1 + (f + mi) % 3, Some(cap), false);
+                }
+            }
+        }
+    }
     // sessions: every fault pattern of length 4 over {none, write fault, read fault} on one bus
     let own = Address(3);
     let session_msgs = vec![Message::PixelsComplete(own), Message::Hello(own), Message::DataChunksSent(ChunkCount(2)), Message::QueryState(own),
@@ -937,6 +1011,18 @@ pub fn record_c16(a: &Args) -> usize {
         run_session(&mut out, &session_msgs, &pattern, &tape);
     }
     out.finish()
+}
+
+fn wire_len(m: &Message<'static>) -> usize {
+    catch(|| Frame::from(m.clone()).to_bytes_with_newline().len()).unwrap_or(0)
+}
+
+/// Pacing traces need the sizes and times of port calls, not the bytes.
+fn strip_data(mut ev: Value) -> Value {
+    if let Some(o) = ev.as_object_mut() {
+        let _ = o.remove("data");
+    }
+    ev
 }
 
 /// C18: a sequence of messages on one bus with monotonic time stamps at the port's read/write boundaries.
@@ -1015,13 +1101,62 @@ pub fn record_c18(a: &Args) -> usize {
         let r = catch(|| bus.process_message(m.clone()).map(|o| o.map(|x| j::msg_from(&j::msg(&x)))).map_err(|e| e.to_string()));
         let t_ret = st.borrow().now();
         let mut s = st.borrow_mut();
-        out.emit(json!({"e": "pm", "m": j::msg(m), "t": t_call, "reply": reply.as_ref().map(j::msg).unwrap_or(j::reply(&None))}));
+        out.emit(json!({"e": "pm", "m": j::msg(m), "t": t_call, "wlen": wire_len(m), "reply": reply.as_ref().map(j::msg).unwrap_or(j::reply(&None))}));
         for ev in s.io_log.drain(..) {
-            out.emit(ev);
+            out.emit(strip_data(ev));
         }
         out.emit(json!({"e": "pmret", "res": pm_result(&r), "t": t_ret}));
         s.tx.clear();
         n += 1;
+    }
+    // one call with the port's fault schedule / write granularity set for that call only
+    let mut call = |out: &mut TraceOut, m: &Message<'static>, reply: Option<Message<'static>>, fail_at: Option<usize>, fail_n: usize, cap: Option<usize>| {
+        {
+            let mut s = st.borrow_mut();
+            s.io_calls = 0;
+            s.io_fail_at = fail_at;
+            s.io_fail_n = fail_n;
+            s.write_cap = cap;
+            s.rx.clear();
+            if let Some(r) = &reply {
+                s.rx.extend(Frame::from(r.clone()).to_bytes_with_newline());
+            }
+        }
+        let t_call = st.borrow().now();
+        let r = catch(|| bus.process_message(m.clone()).map(|o| o.map(|x| j::msg_from(&j::msg(&x)))).map_err(|e| e.to_string()));
+        let t_ret = st.borrow().now();
+        let mut s = st.borrow_mut();
+        out.emit(json!({"e": "pm", "m": j::msg(m), "t": t_call, "wlen": wire_len(m), "reply": reply.as_ref().map(j::msg).unwrap_or(j::reply(&None))}));
+        for ev in s.io_log.drain(..) {
+            out.emit(strip_data(ev));
+        }
+        out.emit(json!({"e": "pmret", "res": pm_result(&r), "t": t_ret}));
+        s.tx.clear();
+        s.io_fail_at = None;
+        s.write_cap = None;
+    };
+    // a long unbroken run of in-progress reports (a pause that shrinks, or a counter that runs out, shows only late)
+    let run = if thorough { 70 } else { 36 };
+    for k in 0..run {
+        let st8 = if k % 2 == 0 { State::PageLoadInProgress } else { State::PageShowInProgress };
+        let m = if k % 5 == 4 { Message::RequestOperation(own, Operation::LoadNextPage) } else { Message::QueryState(own) };
+        call(&mut out, &m, Some(Message::ReportState(own, st8)), None, 1, None);
+    }
+    // data chunks on a port that takes only a few bytes per write and / or refuses one, two or three consecutive I/O calls
+    // (writes and flushes): once the whole chunk is out, the next message waits, whatever the call itself reported
+    let chunk = Message::SendData(Offset(32), Data::try_new(vec![0x5A; 16]).unwrap());
+    for cap in [None, Some(16usize), Some(5)] {
+        call(&mut out, &chunk, None, None, 1, cap);
+        call(&mut out, &Message::DataChunksSent(ChunkCount(1)), None, None, 1, cap);
+        for fail_at in 0..4usize {
+            for fail_n in 1..=3usize {
+                if !thorough && cap.is_some() && (fail_at + fail_n) % 2 == 0 {
+                    continue;
+                }
+                call(&mut out, &chunk, None, Some(fail_at), fail_n, cap);
+                call(&mut out, &Message::Goodbye(own), None, None, 1, None);
+            }
+        }
     }
     out.emit(json!({"e": "end"}));
     let _ = n;
